@@ -8,8 +8,8 @@ import subprocess
 import sys
 import time
 
-VERIF = "/verif"
-REPO = "/repo"
+VERIF = os.environ.get("VERIF_HOME", "/verif")
+REPO = os.environ.get("VERIF_REPO", "/repo")
 COQ = os.path.join(VERIF, "coq")
 BUILD = os.path.join(VERIF, "build")
 NPROC = os.cpu_count() or 4
